@@ -240,6 +240,19 @@ Definition file_result (k : cfg) (i pm : N) (c : str) : node :=
 (* can a regular file be placed at all? *)
 Definition placeable (k : cfg) : bool := negb (link k) || link_ok k || fallback k.
 
+(* does the tree contain a regular file? *)
+Fixpoint has_file (n : node) : bool :=
+  match n with
+  | File _ _ _ => true
+  | Link _ => false
+  | Dir es =>
+      (fix go (l : list (str * node)) : bool :=
+         match l with
+         | [] => false
+         | (_, c) :: r => has_file c || go r
+         end) es
+  end.
+
 (* names: non-empty, no '/', not "." or ".." ; unique within a directory *)
 Fixpoint nodupb (l : list str) : bool :=
   match l with
